@@ -106,7 +106,9 @@ def server_fuzz(ctx, sanitize, n):
             except OSError: pass
             sent += 1
             if it % 25 == 24 or it == n - 1:
-                if not s.alive(): why = "lighttpd died (exit status %s) after input %r..." % (s.proc.poll(), raw[:80]); break
+                if not s.alive():
+                    rcx = s.stop()
+                    why = "lighttpd died (exit status %s) after input %r...: %s" % (rcx, raw[:80], getattr(s, "out", "")[-1200:]); break
                 try: ok = b"ok\n" in s.roundtrip(b"GET /ok.txt HTTP/1.1\r\nHost: h\r\nConnection: close\r\n\r\n", timeout=5.0)
                 except OSError: ok = False
                 if not ok: why = "the server stopped answering a plain request after %d malformed streams (last: %r...)" % (sent, raw[:80]); break
